@@ -706,9 +706,11 @@ window without a proviso on ambiguous spans (false on the model and on the code;
 ten residues, window `Slice(seq, 8, 4)` = residues `9,10,1..4` — comes back INVERTED, `Ambiguous{6, 1}`, printed
 `7.1` on a six-residue record.  It is the rotation step's `Ambiguous.Normalize` (C04 `rotate_coords_full_refuted`;
 C04's quantifier carves the shape out: "ambiguous spans only when they do not cross the new origin"); C03's
-quantifier has no such carve-out, so by C03's words this is a violation — recorded here and in DESIGN §6 C03 as an
-OPEN item (no `known_findings.json` entry and no sequence-level generator for Ambiguous features yet: `genFeature`
-draws none). -/
+quantifier has no such carve-out, so by C03's words this is a violation: KNOWN FINDING K3A (`known_findings.json`,
+witness `seq.slice … (A 6 9) … 8 4`).  Since the audit follow-up `genFeature` (harness/gen.go) draws Ambiguous
+features at sequence level; the wrap-around oracle of `propC03` skips the denotation law for exactly the shape
+`slice_wrap_ambiguous_guard` below names (counted) and attributes the inverted span the code returns to K3A;
+`C04.rotate_ambiguous_across_origin` shows that EVERY such span comes out of the rotation step inverted. -/
 theorem slice_wrap_ambiguous_coords_full_refuted :
     ¬ (∀ (s : Seq) (a b : Int), 0 ≤ b → b < a → a ≤ s.len →
         (∀ f ∈ s.feats, wf f.loc = true ∧ coordsWithin f.loc s.len = true) →
@@ -721,6 +723,38 @@ theorem slice_wrap_ambiguous_coords_full_refuted :
           = [⟨"misc", ambiguous 6 1, []⟩] := by rfl
       rw [hs]; exact List.mem_singleton.mpr rfl)
   revert this
+  decide
+
+/-- **the `normOk` guard of the wrap-around theorems on an ambiguous span, in the property's words**: for an
+ambiguous span `[s, e)` inside the record (`0 ≤ s < e ≤ L`, shorter than `L`) and a wrap-around window starting at
+`0 < a ≤ L`, the guard `normOk L (expand · 0 (rotN (-a) L))` of `slice_wrap_feature_partial` /
+`slice_wrap_den_partial` / `slice_wrap_survives_partial` / `slice_wrap_den_nodup_partial` /
+`slice_wrap_neg_den_partial` holds EXACTLY when the span does not lie across the window start (`¬ (s < a < e)`):
+every other ambiguous span is inside the theorems' quantifier, the excluded shape is exactly known finding K3A. -/
+theorem slice_wrap_ambiguous_guard (s e a L : Int) (hs : 0 ≤ s) (hse : s < e) (heL : e ≤ L) (hlen : e - s < L)
+    (ha : 0 < a) (haL : a ≤ L) :
+    normOk L (expand (ambiguous s e) 0 (C04.rotN (-a) L)) = true ↔ ¬ (s < a ∧ a < e) := by
+  have hL : 0 < L := by omega
+  have hr : C04.rotN (-a) L = L - a := by
+    rw [C04.rotN_eq_emod _ _ hL, mod_window L (-L) (-a) (-1) (by omega) (by omega) (by omega)]; omega
+  rw [hr, C04.normOk_ambiguous_iff s e (L - a) L hs hse heL hlen (by omega) (by omega)]
+  omega
+
+/-- non-vacuity of `slice_wrap_ambiguous_guard`, and of `slice_wrap_feature_partial` ON A FEATURE WITH AN AMBIGUOUS
+SPAN: `order(one-of(3.6), 9..10)` on ten residues, window `Slice(seq, 8, 4)` = residues `9,10,1..4`; the ambiguous
+span is not across the window start 8, every guard holds, and the sliced feature denotes residues `9` (window
+position 1) and `2, 3` (window positions 4, 5) — the span is cut by the window END, which no guard excludes -/
+example :
+    let s : Seq := ⟨[⟨"gene", ordered [ambiguous 2 6, ranged 9 10 false false], []⟩], [97, 99, 103, 116, 97, 99, 103, 116, 97, 99]⟩
+    let l := ordered [ambiguous 2 6, ranged 9 10 false false]
+    ¬ ((2 : Int) < 8 ∧ (8 : Int) < 6) ∧
+    wf l = true ∧ nonneg l = true ∧ normOk s.len (expand l 0 (C04.rotN (-8) s.len)) = true ∧
+    expandAbs l 0 (C04.rotN (-8) s.len) = false ∧
+    normalizeAbs (expand l 0 (C04.rotN (-8) s.len)) s.len = false ∧
+    ((l.expand 0 (C04.rotN (-8) s.len)).normalize s.len).overlap 0 (s.len - 8 + 4) = true ∧
+    expandAbs ((l.expand 0 (C04.rotN (-8) s.len)).normalize s.len) (s.len - 8 + 4) (s.len - 8 + 4 - s.len) = false ∧
+    expandAbs (((l.expand 0 (C04.rotN (-8) s.len)).normalize s.len).expand (s.len - 8 + 4) (s.len - 8 + 4 - s.len)) 0 (-0) = false ∧
+    (s.slice 8 4).feats.map (fun f => (f.key, f.loc.den.map (·.1))) = [("gene", [4, 5, 1])] := by
   decide
 
 /-- **negative indices, as the code treats them**: `Slice` first adds the length to a negative
